@@ -78,7 +78,21 @@ def handleTokens (inp : List String) (obs : String) : Verdict :=
     | some e, some b =>
       let bb := UInt8.ofNat b
       let m := s!"{showOptU (decodePhred S T e bb)} {showOptS (decodeSolexa S T e bb)}"
-      conclude [] m obs ["decode", encName e]
+      -- "encode, decode and convert consistently": decoding one byte to the two score types must
+      -- commute with the conversion tables (Solexa encoding: the Phred reading is the converted
+      -- Solexa score; Phred-offset encodings: the Solexa reading is the converted Phred score)
+      let viol := match ot with
+        | [ph, so] =>
+          match parseNat ph, parseInt so with
+          | some ph, some so =>
+            if e == codeSolexa && (T.toPhred (Int8.ofInt so)).toNat ≠ ph then
+              [s!"decode-cross-consistency: Solexa byte {b} reads as Solexa {so} but as Phred {ph}, conversion gives {(T.toPhred (Int8.ofInt so)).toNat}"]
+            else if phredOffsetEncodings.contains e && (T.toSolexa (UInt8.ofNat ph)).toInt ≠ so then
+              [s!"decode-cross-consistency: {encName e} byte {b} reads as Phred {ph} but as Solexa {so}, conversion gives {(T.toSolexa (UInt8.ofNat ph)).toInt}"]
+            else []
+          | _, _ => ["unparsable-observation"]
+        | _ => if obs.startsWith "panic" then [] else ["unparsable-observation"]
+      conclude viol m obs ["decode", encName e]
     | _, _ => bad "d"
   | ["pq", q] =>
     match parseNat q with
